@@ -2,10 +2,11 @@
 use super::*;
 use crate::vklib::*;
 
-fn precedence(new_first: bool) {
+fn precedence(new_first: bool, legacy_ty: u16) {
     let mut body: Vec<u8> = Vec::with_capacity(64);
     let new_rgba: [u8; 4] = kani::any();
     let old_rgb: [u8; 3] = kani::any();
+    kani::assume(old_rgb[0] < 64 && old_rgb[1] < 64 && old_rgb[2] < 64); // valid for both legacy kinds
     for k in 0..2 {
         if (k == 0) == new_first {
             put32(&mut body, 26 + 6);
@@ -18,7 +19,7 @@ fn precedence(new_first: bool) {
             body.extend_from_slice(&new_rgba);
         } else {
             put32(&mut body, 7 + 6);
-            put16(&mut body, 0x0004);
+            put16(&mut body, legacy_ty);
             put16(&mut body, 1);
             body.push(0);
             body.push(1);
@@ -50,12 +51,26 @@ fn precedence(new_first: bool) {
 #[kani::stub(alloc::fmt::format, crate::vklib::empty_format)]
 #[kani::stub(std::hash::RandomState::new, crate::vklib::fixed_random_state)]
 fn c11_q_new_palette_then_legacy() {
-    precedence(true);
+    precedence(true, 0x0004);
 }
 #[kani::proof]
 #[kani::unwind(9)]
 #[kani::stub(alloc::fmt::format, crate::vklib::empty_format)]
 #[kani::stub(std::hash::RandomState::new, crate::vklib::fixed_random_state)]
 fn c11_q_legacy_then_new_palette() {
-    precedence(false);
+    precedence(false, 0x0004);
+}
+#[kani::proof]
+#[kani::unwind(9)]
+#[kani::stub(alloc::fmt::format, crate::vklib::empty_format)]
+#[kani::stub(std::hash::RandomState::new, crate::vklib::fixed_random_state)]
+fn c11_q_new_palette_then_legacy_0011() {
+    precedence(true, 0x0011);
+}
+#[kani::proof]
+#[kani::unwind(9)]
+#[kani::stub(alloc::fmt::format, crate::vklib::empty_format)]
+#[kani::stub(std::hash::RandomState::new, crate::vklib::fixed_random_state)]
+fn c11_t_legacy_0011_then_new_palette() {
+    precedence(false, 0x0011);
 }
